@@ -635,7 +635,11 @@ func (l *Logger) Export() *HAR {
 	curr := l.tail
 	for curr != nil {
 		curr = curr.next
-		es = append(es, curr)
+		// Export a copy: the logged entry stays in the log and is updated
+		// under l.mu by RecordResponse while the caller reads the export.
+		e := *curr
+		e.next = nil
+		es = append(es, &e)
 		if curr == l.tail {
 			break
 		}
